@@ -3,10 +3,16 @@ CONSTANTS
   Producers <- MCProducers
   Flushers <- MCFlushers
   Stoppers <- MCStoppers
+  Outcomes <- MCOutcomes
+  Expiring <- MCExpiring
   SpansPer = @SPANSPER@
   QCap = @QCAP@
   MaxBatch = @MAXBATCH@
   Blocking = @BLOCKING@
   AllowKnown = @ALLOWKNOWN@
+  CodeShape = "@CODESHAPE@"
+  ExportTimeout = @EXPORTTIMEOUT@
+  ResetOnFailure = @RESETONFAILURE@
+INVARIANTS Stuck
 PROPERTIES Termination
 CHECK_DEADLOCK FALSE
